@@ -83,7 +83,12 @@ def run_pair(case, chooser):
     sa, sb = scripts("a")[case["a"]], scripts("b")[case["b"]]
     solo = case.get("solo")     # 'a' / 'b' / None
     def users(a, base):
-        return [a.User(base_path=base), a.User("bob", "pw", base_path=base, maximum_connections=case.get("bob_limit", 2))]
+        ukw = {}
+        if case.get("throttle") == "per-connection":
+            # per-connection limits of one account: every session has its own budget
+            ukw = {"read_speed_limit_per_connection": 200, "write_speed_limit_per_connection": 200}
+        return [a.User(base_path=base, **ukw),
+                a.User("bob", "pw", base_path=base, maximum_connections=case.get("bob_limit", 2))]
 
     skw = {"block_size": B, "wait_future_timeout": 1}
     if case.get("server_limit"):
@@ -91,7 +96,10 @@ def run_pair(case, chooser):
     if case.get("throttle"):
         # a server-wide limit shared by both sessions (virtual time: costs nothing); events are then fired with a frozen
         # clock so that both sessions' transfers really wait on the shared throttle at the same time
-        skw.update(read_speed_limit=200, write_speed_limit=200, wait_future_timeout=1000)
+        if case["throttle"] == "per-connection":
+            skw.update(wait_future_timeout=1000)
+        else:
+            skw.update(read_speed_limit=200, write_speed_limit=200, wait_future_timeout=1000)
     rig = Rig(chooser=chooser, n_sessions=2, tree=tree(), window=case.get("window", 65536), users=users,
               server_kwargs=skw,
               backend=case.get("backend", "memory"), delay=case.get("delay", 0.0))
@@ -139,6 +147,8 @@ def run_pair(case, chooser):
             s = rig.sessions[i]
             res[d] = {"transcript": norm(s.transcript), "tree": restrict(snap, d),
                       "data": [c.received for c in s.peer.conns[1:]]}
+            # how long each transfer took: arrival time of its completion reply minus arrival time of its 150 mark
+            res[d]["spans"] = transfer_spans(s.ctl) if s.ctl is not None else []
         # a PathIO instance knows the Connection it works for (custom backends read it): every backend call on a
         # session's own directory must come from that session's instance
         ports = {}
@@ -218,8 +228,44 @@ def orders(na, nb):
         yield o
 
 
-def compare(res, solo_a, solo_b, fire, only=None):
+def transfer_spans(conn):
+    """[(final code, seconds between the 150 mark and the final reply)] from the arrival times of the control bytes"""
+    total = bytes(conn.p.total)
+    times, off = [], 0
+    for t, n in conn.p.recv_log:
+        times.append((off + n, t))
+        off += n
+
+    def when(pos):
+        for end, t in times:
+            if pos < end:
+                return t
+        return times[-1][1] if times else 0.0
+
+    out, pos, mark = [], 0, None
+    for line in total.split(b"\r\n"):
+        end = pos + len(line) + 1
+        code = line[:3].decode("latin-1")
+        if line[3:4] == b" " and code.isdigit():
+            if code == "150":
+                mark = when(end)
+            elif mark is not None and code in ("226", "426", "451", "425", "200"):
+                out.append((code, round(when(end) - mark, 6)))
+                mark = None
+        pos = end + 1
+    return out
+
+
+def compare(res, solo_a, solo_b, fire, only=None, spans=False):
     problems = []
+    if spans:
+        for d, solo in (("a", solo_a), ("b", solo_b)):
+            if only is not None and d != only:
+                continue
+            got, want = res[d].get("spans"), solo[d].get("spans")
+            if got is not None and want is not None and len(got) == len(want) and \
+                    any(gc != xc or abs(g - x) > 0.05 + 0.02 * x for (gc, g), (xc, x) in zip(got, want)):
+                problems.append({"kind": "transfer-duration-differs-from-solo", "session": d, "got": got, "solo": want})
     if res.get("misattributed"):
         problems.append({"kind": "backend-instance-of-another-session", "calls(op, path, owner port, session port)":
                          res["misattributed"]})
@@ -336,7 +382,8 @@ def _work(item):
                 part.counters[f"fired_dev{ch.deviations}"] += 1
                 if ch.deviations:
                     part.sample({"pair": [na, nb], "fired": True, "choices": ch.choices}, limit=1)
-                for p in compare(res, solo_a, solo_b, True, only=extra.get("victim")):
+                for p in compare(res, solo_a, solo_b, True, only=extra.get("victim"),
+                                 spans=extra.get("throttle") == "per-connection"):
                     part.violation({"kind": p["kind"], "pair": [na, nb], "fired": True},
                                    {"problem": p, "choices": ch.choices},
                                    replay={"case": case, "choices": ch.choices, "kinds": kinds})
@@ -360,6 +407,11 @@ def build_items(tier):
         fired = pairs
     for na, nb in fired:
         items.append(("fired", na, nb, {"bound": 1, "cap": 1500 if tier == "quick" else 20000}))
+    # per-connection limits of one account are per session: a big transfer takes as long next to another one as alone
+    # (measured on downloads, whose pace is the server's alone: 150 mark to completion reply)
+    for na, nb in (("big-download", "big-download"), ("big-download", "big-upload"), ("big-download", "big-abort"),
+                   ("big-download", "big-cut")):
+        items.append(("fired", na, nb, {"bound": 0, "cap": 3000, "throttle": "per-connection", "victim": "a"}))
     # two users with different base directories and permissions on the same virtual paths
     for na, nb in (("cwd", "cwd"), ("rename", "rename"), ("upload", "upload"), ("cwd", "rename"), ("upload", "cwd"),
                    ("appe", "download-rest")):
